@@ -187,6 +187,15 @@ def main():
     scen = [make_scenario(rng, i, big=(i % 25 == 7)) for i in range(nclean)]
     # the fault set: small maildirs of 1..3 messages, one with a message that needs several writes
     fset = [make_scenario(rng, 10000 + i, big=(i == 1), nfiles=[2, 1, 3, 2, 1][i % 5]) for i in range(nfault)]
+    # the 8192-byte output buffer fills (and is written out) inside the From_ line of the second message, inside its first line,
+    # and exactly between two messages: a failing write is then noticed by a different substdio_put each time
+    for j, d in enumerate((5, 40, 0, 8192 + 12)):
+        head = b"Return-Path: <s@h.example>\n"
+        fill = 8192 - d - (5 + 11 + 1 + 24 + 1) - len(head) - 1          # "From s@h.example <ctime>\n" head body "\n"
+        body = b"".join(b"z" * 99 + b"\n" for _ in range(fill // 100)) + b"z" * (fill % 100 - 1) + b"\n"
+        fset.append({"i": 10100 + j, "old": b"", "stale": j % 2 == 1, "tmpfiles": False, "files": [
+            {"name": "1.%d.host" % j, "sub": "new", "data": head + body, "mtime": NOW - 5000},
+            {"name": "2.%d.host" % j, "sub": "cur", "data": head + b"Subject: second\n\nFrom here on\nlast", "mtime": NOW - 4000}]})
     for s in fset:
         for f in s["files"]:
             if f["mtime"] >= NOW:
